@@ -461,6 +461,24 @@ func ruleC15ValidateAll(c *Ctx) {
 		}
 		extra = append(extra, c.pos(g.At))
 	}
+	// the refusal of dynamic references concerns every schema of the tree, whether it has a default or not: a default
+	// elsewhere is evaluated through such a schema, and the evaluation would use the lexical target only
+	for _, f := range core.WithAnon(evalCall.Parent()) {
+		core.EachInstr(f, func(i ssa.Instruction) {
+			ifi, ok := i.(*ssa.If)
+			if !ok || !c.mentionsField(ifi.Cond, "Schema.DynamicRef", 4) {
+				return
+			}
+			var under []string
+			for _, g := range guardsLocal(ifi) {
+				if c.mentionsField(g.Cond, "Schema.Default", 4) {
+					under = append(under, c.pos(g.At))
+				}
+			}
+			c.R.Check(len(under) == 0, rule, "dynamic-refs-refused-everywhere", c.pos(ifi), "a schema with a $dynamicRef is refused whether or not it has a default itself",
+				fmt.Sprintf("the refusal of $dynamicRef in default validation is made only for schemas that carry a default themselves (test at %v): a default whose schema reaches a $dynamicRef through a child or a $ref is validated against the lexical target, and a default that the dynamic target rejects is accepted", under))
+		})
+	}
 	c.R.Check(len(extra) == 0, rule, "no-schema-skipped", c.pos(evalCall), "a schema with a default can skip validation of that default only by failing", fmt.Sprintf("schemas can be skipped by default validation on conditions other than having no default (guards at %v): an invalid default there is never reported, and ApplyDefaults later inserts a value that Validate rejects", extra))
 	// (the per-schema work may sit in a helper of the function that walks the tree: climb to the walker)
 	for hops := 0; hops < 3; hops++ {
